@@ -328,6 +328,13 @@ func (e *erasureCodingPartStore) GetPart(ctx context.Context, tx database.Tx, pa
 		unlock()
 		return nil, err
 	}
+	if noShardReadable(readers) {
+		// No shard store has the part (it was never written or it was deleted).
+		// Streaming from zero shards would end with a clean EOF, i.e. report an
+		// empty part instead of a missing one.
+		unlock()
+		return nil, partstore.ErrPartNotFound
+	}
 	if hasHealShards(healShards) {
 		closePartReaders(readers)
 		unlock()
@@ -345,6 +352,12 @@ func (e *erasureCodingPartStore) getPartWithHealing(ctx context.Context, tx data
 	if err != nil {
 		unlock()
 		return nil, err
+	}
+	if noShardReadable(readers) {
+		// The part was deleted between releasing the shared lock and taking the
+		// exclusive one.
+		unlock()
+		return nil, partstore.ErrPartNotFound
 	}
 
 	return e.newPartReader(ctx, tx, partId, readers, healShards, true, unlock), nil
@@ -386,6 +399,15 @@ func (e *erasureCodingPartStore) openPartReaders(ctx context.Context, tx databas
 		readers[i] = rc
 	}
 	return readers, healShards, nil
+}
+
+func noShardReadable(readers []io.ReadCloser) bool {
+	for _, rc := range readers {
+		if rc != nil {
+			return false
+		}
+	}
+	return true
 }
 
 func hasHealShards(healShards []bool) bool {
